@@ -12,9 +12,9 @@ Cases == ndJsonDeserialize(IOEnv.TRACES)
 VARIABLES blk, tid, verdict
 
 Samples(vb) == IF IOEnv.DENSE = "1"
-               THEN { <<4 * i + 2, 4 * j + 2>> : i \in (2 * (vb[1] - 2))..(2 * (vb[1] + vb[3] + 2) - 1),
+               THEN { <<4 * i + 1, 4 * j + 2>> : i \in (2 * (vb[1] - 2))..(2 * (vb[1] + vb[3] + 2) - 1),
                                                  j \in (2 * (vb[2] - 2))..(2 * (vb[2] + vb[4] + 2) - 1) }
-               ELSE { <<8 * i + 2, 8 * j + 6>> : i \in (vb[1] - 2)..(vb[1] + vb[3] + 1),
+               ELSE { <<8 * i + 2, 8 * j + 5>> : i \in (vb[1] - 2)..(vb[1] + vb[3] + 1),
                                                  j \in (vb[2] - 2)..(vb[2] + vb[4] + 1) }
 
 Mem(l, p) ==
